@@ -1,10 +1,203 @@
-/- C14 — property theorems (filled below). -/
-import SkNet.Model.Heat
-import SkNet.Spec.Heat
+/-
+C14 — Heat diffusion obeys the maximum principle and tends to the harmonic solution.
+
+Property theorems about the model `SkNet/Model/Heat.lean` (which mirrors sknetwork/regression/diffusion.py,
+regression/base.py, linalg/normalizer.py, utils/values.py and the part of utils/format.py they call, and is tied to
+the code by the correspondence harness tools/harness/c14.py).  Specification: `SkNet/Spec/Heat.lean`.
+Helper lemmas: `SkNet/Lemmas/Heat*.lean`.  All theorems hold for every graph size and every number of rounds.
+-/
+import SkNet.Lemmas.HeatValues
 
 namespace SkNet.C14
 open SkNet SkNet.Heat
 
-theorem sumTo_zero (f : Nat → Rat) : sumTo 0 f = 0 := rfl
+attribute [-simp] List.getD_eq_getElem?_getD
+
+/-! ## normalize -/
+
+/-- **normalize_stochastic**. For every matrix and every row `i` of `normalize(matrix)`:
+non-negative entries stay non-negative; a non-null row has L1 norm 1 — and sums to 1 when the weights are
+non-negative; a null row stays null; and a row is null exactly when all its entries are 0. -/
+theorem normalize_stochastic (m : Nat) (A : Nat → Nat → Rat) (i : Nat) :
+    (∀ j, 0 ≤ A i j → 0 ≤ normalize m A i j) ∧
+    (rowNorm m A i ≠ 0 → sumTo m (fun j => absQ (normalize m A i j)) = 1) ∧
+    ((∀ j, j < m → 0 ≤ A i j) → rowNorm m A i ≠ 0 → sumTo m (normalize m A i) = 1) ∧
+    (rowNorm m A i = 0 → ∀ j, normalize m A i j = 0) ∧
+    (rowNorm m A i = 0 ↔ ∀ j, j < m → A i j = 0) :=
+  ⟨fun _ h => normalize_nonneg h, normalize_abs_row_sum, normalize_row_sum, normalize_null_row,
+   ⟨rowNorm_eq_zero, fun h => sumTo_eq_zero_of_all_zero (fun j hj => by simp [h j hj, absQ])⟩⟩
+
+/-- Non-vacuity: row 0 of `[[0,1,3],[0,0,0],[2,0,0]]` is normalised to `[0, 1/4, 3/4]`, the null row 1 stays null. -/
+example : (List.range 3).map (normalize 3 (fun i j => if i = 0 ∧ j = 1 then 1 else if i = 0 ∧ j = 2 then 3
+    else if i = 2 ∧ j = 0 then 2 else 0) 0) = [0, 1/4, 3/4] := by decide +kernel
+example : rowNorm 3 (fun i j => if i = 0 ∧ j = 1 then 1 else if i = 0 ∧ j = 2 then 3
+    else if i = 2 ∧ j = 0 then 2 else 0) 1 = 0 := by decide +kernel
+
+/-- The matrix iterated by `Diffusion.fit` — `(1-α) I + α (normalize(Aᵀ) + diag(degrees == 0))` — is
+row-stochastic for every non-negatively weighted graph (sinks, sources and isolated nodes included) and every
+damping factor in `[0,1]`. -/
+theorem diffusion_matrix_stochastic (n : Nat) (A : Nat → Nat → Rat) (α : Rat) (hA : ∀ i j, 0 ≤ A i j)
+    (h0 : 0 ≤ α) (h1 : α ≤ 1) (i : Nat) (hi : i < n) :
+    (∀ j, 0 ≤ diffusionEntry n A α i j) ∧ sumTo n (diffusionEntry n A α i) = 1 :=
+  ⟨diffusionEntry_nonneg hA h0 h1 i, diffusionEntry_row_sum hA hi⟩
+
+/-! ## the maximum principle -/
+
+/-- **max_principle (vector form)**. Let `p` be what `get_adjacency_values` produced (adjacency with non-negative
+weights, vector of seeds of the right length), `lo ≤ hi` bounds of the seed temperatures (entries `≥ 0` of
+`p.seeds`), `init` absent or inside `[lo, hi]`. For Diffusion let the damping factor be in `[0,1]`; for Dirichlet
+let every node that is *not* a seed have an outgoing edge (weaker than the property's "every node has an outgoing
+edge"). Then after **any** number `k` of rounds every entry of the computed vector lies in `[lo, hi]`. -/
+theorem max_principle_vector (algo : Algo) (p : Prepared) (init : Option Rat) (k : Nat) (α lo hi : Rat)
+    (v : List Rat) (hlen : p.seeds.length = p.n)
+    (hfit : fitVector algo p init k α = .ok v)
+    (hA : ∀ i j, 0 ≤ p.adj i j)
+    (hseeds : ∀ i, i < p.n → 0 ≤ p.seeds.getD i 0 → lo ≤ p.seeds.getD i 0 ∧ p.seeds.getD i 0 ≤ hi)
+    (hinit : ∀ x, init = some x → lo ≤ x ∧ x ≤ hi)
+    (hα : algo = .diffusion → 0 ≤ α ∧ α ≤ 1)
+    (hsink : algo = .dirichlet → ∀ i, i < p.n → p.seeds.getD i 0 < 0 → ∃ j, j < p.n ∧ p.adj i j ≠ 0) :
+    InRange lo hi p.n v := by
+  have hrange : ∀ {temps border}, initTemperatures p.seeds init = .ok (temps, border) → InRange lo hi p.n temps := by
+    intro temps border ht
+    have := initTemperatures_inRange (lo := lo) (hi := hi) ht (by rw [hlen]; exact hseeds) hinit
+    rwa [hlen] at this
+  cases algo with
+  | diffusion =>
+    obtain ⟨temps, border, ht, rfl⟩ := fitVector_diffusion_ok hfit
+    have htemps := hrange ht
+    obtain ⟨h0, h1⟩ := hα rfl
+    refine loop_invariant (InRange lo hi p.n) (fun v hv => matVec_inRange (fun i hi => ⟨fun j hj => ?_, ?_⟩) hv) k temps htemps
+    · rw [ent_mat hi hj]; exact diffusionEntry_nonneg hA h0 h1 i j
+    · rw [sumTo_congr (fun j hj => ent_mat hi hj)]; exact diffusionEntry_row_sum hA hi
+  | dirichlet =>
+    obtain ⟨temps, border, ht, rfl⟩ := fitVector_dirichlet_ok hfit
+    have htemps := hrange ht
+    obtain ⟨hb, _⟩ := initTemperatures_ok ht
+    subst hb
+    refine loop_invariant (InRange lo hi p.n)
+      (fun v hv => dirichletStep_inRange (fun i hi hbi => ⟨fun j hj => ?_, ?_⟩) (fun i hi _ => htemps.2 i hi) hv) k temps htemps
+    · rw [ent_mat hi hj]; exact normalize_nonneg (hA i j)
+    · rw [sumTo_congr (fun j hj => ent_mat hi hj)]
+      have hneg : p.seeds.getD i 0 < 0 := by
+        by_contra hge
+        have := (borderOf_getD_true (hlen ▸ hi)).2 (not_lt.1 hge)
+        rw [hbi] at this; cases this
+      obtain ⟨j, hj, hne⟩ := hsink rfl i hi hneg
+      exact normalize_row_sum (fun j _ => hA i j) (ne_of_gt (rowNorm_pos_of_entry hj hne))
+
+/-- **max_principle**. On every weighted graph (adjacency or biadjacency, routed by `get_adjacency_values`) with
+non-negative weights, for every form of the temperatures, every `n_iter`, `init` absent or within the seed range,
+damping factor in `[0,1]` (Diffusion) / every non-seed node having an outgoing edge (Dirichlet): whenever `fit`
+returns, **all** of `values_`, `values_row_`, `values_col_` lie between the smallest and the largest seed
+temperature. -/
+theorem max_principle (algo : Algo) (nRow nCol nnz : Nat) (B : Nat → Nat → Rat) (a : Args) (nIter : Int)
+    (α lo hi : Rat) (p : Prepared) (out : Out)
+    (hprep : getAdjacencyValues nRow nCol nnz B a = .ok p)
+    (hfit : fit algo nRow nCol nnz B a nIter α = .ok out)
+    (hB : ∀ i j, 0 ≤ B i j)
+    (hseeds : ∀ i, i < p.n → 0 ≤ p.seeds.getD i 0 → lo ≤ p.seeds.getD i 0 ∧ p.seeds.getD i 0 ≤ hi)
+    (hinit : ∀ x, a.init = some x → lo ≤ x ∧ x ≤ hi)
+    (hα : algo = .diffusion → 0 ≤ α ∧ α ≤ 1)
+    (hsink : algo = .dirichlet → ∀ i, i < p.n → p.seeds.getD i 0 < 0 → ∃ j, j < p.n ∧ p.adj i j ≠ 0) :
+    (∀ x, x ∈ out.values → lo ≤ x ∧ x ≤ hi) ∧
+    (∀ r, out.valuesRow = some r → ∀ x, x ∈ r → lo ≤ x ∧ x ≤ hi) ∧
+    (∀ c, out.valuesCol = some c → ∀ x, x ∈ c → lo ≤ x ∧ x ≤ hi) := by
+  obtain ⟨_, p', v, hp', hv, rfl⟩ := fit_ok hfit
+  rw [hprep] at hp'; cases hp'
+  have hlen := (getAdjacencyValues_ok hprep).2.1
+  have hr := (max_principle_vector algo p a.init nIter.toNat α lo hi v hlen hv
+    (getAdjacencyValues_nonneg hprep hB) hseeds hinit hα hsink).mem
+  unfold splitVars
+  cases p.bipartite with
+  | false => exact ⟨hr, fun r h => (by cases h), fun c h => (by cases h)⟩
+  | true =>
+    refine ⟨fun x hx => hr x (List.mem_of_mem_take hx), fun r h x hx => ?_, fun c h x hx => ?_⟩
+    · cases h; exact hr x (List.mem_of_mem_take hx)
+    · cases h; exact hr x (List.mem_of_mem_drop hx)
+
+/-- Non-vacuity: the `house` example of the docstrings (5 nodes, seeds {0: 1, 2: 0}) meets the hypotheses with
+`lo = 0`, `hi = 1`; both estimators return, and Dirichlet reproduces the documented `[1, 0.54, 0, 0.31, 0.62]` after 10 rounds (two rounds are evaluated here). -/
+def houseAdj (i j : Nat) : Rat :=
+  if (i, j) ∈ [(0,1),(1,0),(0,4),(4,0),(1,2),(2,1),(1,4),(4,1),(2,3),(3,2),(3,4),(4,3)] then 1 else 0
+
+example : (fit .diffusion 5 5 12 houseAdj { values := .dict [(0, 1), (2, 0)] } 1 (1/2)).toOption.map (·.values)
+    = some [3/4, 1/2, 1/4, 3/8, 7/12] := by decide +kernel
+example : (fit .dirichlet 5 5 12 houseAdj { values := .dict [(0, 1), (2, 0)] } 2 (1/2)).toOption.map (·.values)
+    = some [1, 5/9, 0, 1/3, 7/12] := by decide +kernel
+
+/-- **max_principle (as the property words it)**: every node has an outgoing edge. -/
+theorem max_principle_no_sink (algo : Algo) (nRow nCol nnz : Nat) (B : Nat → Nat → Rat) (a : Args) (nIter : Int)
+    (α lo hi : Rat) (p : Prepared) (out : Out)
+    (hprep : getAdjacencyValues nRow nCol nnz B a = .ok p)
+    (hfit : fit algo nRow nCol nnz B a nIter α = .ok out)
+    (hB : ∀ i j, 0 ≤ B i j)
+    (hout : ∀ i, i < p.n → ∃ j, j < p.n ∧ p.adj i j ≠ 0)
+    (hseeds : ∀ i, i < p.n → 0 ≤ p.seeds.getD i 0 → lo ≤ p.seeds.getD i 0 ∧ p.seeds.getD i 0 ≤ hi)
+    (hinit : ∀ x, a.init = some x → lo ≤ x ∧ x ≤ hi)
+    (hα : 0 ≤ α ∧ α ≤ 1) :
+    (∀ x, x ∈ out.values → lo ≤ x ∧ x ≤ hi) ∧
+    (∀ r, out.valuesRow = some r → ∀ x, x ∈ r → lo ≤ x ∧ x ≤ hi) ∧
+    (∀ c, out.valuesCol = some c → ∀ x, x ∈ c → lo ≤ x ∧ x ≤ hi) :=
+  max_principle algo nRow nCol nnz B a nIter α lo hi p out hprep hfit hB hseeds hinit (fun _ => hα)
+    (fun _ i hi _ => hout i hi)
+
+/-- The hypothesis on sinks cannot be dropped for Dirichlet: on the path `0 → 1` (node 1 is a sink) with the seed
+`{0: 2}` the sink gets temperature 0 after one round, below the smallest initial temperature 2. -/
+theorem dirichlet_sink_counterexample :
+    (fit .dirichlet 2 2 1 (fun i j => if i = 0 ∧ j = 1 then 1 else 0) { values := .dict [(0, 2)] } 1 0).toOption.map
+      (·.values) = some [2, 0] := by decide +kernel
+
+/-! ## boundary values -/
+
+/-- **dirichlet_boundary (vector form)**: after any number of rounds the seeds are returned unchanged. -/
+theorem dirichlet_boundary_vector (p : Prepared) (init : Option Rat) (k : Nat) (α : Rat) (v : List Rat)
+    (hlen : p.seeds.length = p.n) (hfit : fitVector .dirichlet p init k α = .ok v) :
+    v.length = p.n ∧ ∀ i, i < p.n → 0 ≤ p.seeds.getD i 0 → v.getD i 0 = p.seeds.getD i 0 := by
+  obtain ⟨temps, border, ht, rfl⟩ := fitVector_dirichlet_ok hfit
+  obtain ⟨hb, b, _, htemps⟩ := initTemperatures_ok ht
+  subst hb
+  have hinv := loop_invariant (step := dirichletStep p.n (mat p.n p.n (normalize p.n p.adj)) temps (borderOf p.seeds))
+    (fun v => v.length = p.n ∧ ∀ i, i < p.n → (borderOf p.seeds).getD i false = true → v.getD i 0 = temps.getD i 0)
+    (fun v _ => ⟨by simp, fun i hi hbi => by rw [dirichletStep_getD hi, hbi]; rfl⟩) k temps
+    ⟨by rw [htemps]; simp [hlen], fun _ _ _ => rfl⟩
+  refine ⟨hinv.1, fun i hi hs => ?_⟩
+  have hbi := (borderOf_getD_true (hlen ▸ hi)).2 hs
+  rw [hinv.2 i hi hbi, htemps]
+  simp [hlen, hi, hbi]
+
+/-- **dirichlet_boundary**. `Dirichlet.fit` returns the seed temperatures unchanged at the seeds, for every graph
+(sinks and negative weights included), every input form, every `n_iter ≥ 1` and every `init`: in `values_` for an
+adjacency matrix, in `values_row_` / `values_col_` (and `values_ = values_row_`) for a biadjacency matrix. -/
+theorem dirichlet_boundary (nRow nCol nnz : Nat) (B : Nat → Nat → Rat) (a : Args) (nIter : Int) (α : Rat)
+    (p : Prepared) (out : Out)
+    (hprep : getAdjacencyValues nRow nCol nnz B a = .ok p)
+    (hfit : fit .dirichlet nRow nCol nnz B a nIter α = .ok out) :
+    (p.bipartite = false → out.values.length = nRow ∧ out.valuesRow = none ∧ out.valuesCol = none ∧
+      ∀ i, i < nRow → 0 ≤ p.seeds.getD i 0 → out.values.getD i 0 = p.seeds.getD i 0) ∧
+    (p.bipartite = true → ∃ r c, out.valuesRow = some r ∧ out.valuesCol = some c ∧ out.values = r ∧
+      r.length = nRow ∧ c.length = nCol ∧
+      (∀ i, i < nRow → 0 ≤ p.seeds.getD i 0 → r.getD i 0 = p.seeds.getD i 0) ∧
+      (∀ j, j < nCol → 0 ≤ p.seeds.getD (nRow + j) 0 → c.getD j 0 = p.seeds.getD (nRow + j) 0)) := by
+  obtain ⟨_, p', v, hp', hv, rfl⟩ := fit_ok hfit
+  rw [hprep] at hp'; cases hp'
+  obtain ⟨_, hlen, hbip, hsq⟩ := getAdjacencyValues_ok hprep
+  obtain ⟨hvl, hvb⟩ := dirichlet_boundary_vector p a.init nIter.toNat α v hlen hv
+  constructor
+  · intro hb
+    obtain ⟨hn, _, _⟩ := hsq hb
+    simp only [splitVars, hb]
+    exact ⟨by simp [hvl, hn], rfl, rfl, fun i hi hs => hvb i (hn ▸ hi) hs⟩
+  · intro hb
+    obtain ⟨hn, _⟩ := hbip hb
+    simp only [splitVars, hb, if_true]
+    refine ⟨v.take nRow, v.drop nRow, rfl, rfl, rfl, by simp [hvl, hn], by simp [hvl, hn], fun i hi hs => ?_, fun j hj hs => ?_⟩
+    · rw [getD_take _ _ _ _ hi]; exact hvb i (by omega) hs
+    · rw [getD_drop]; exact hvb (nRow + j) (by omega) hs
+
+/-- Non-vacuity (bipartite): a 2×3 biadjacency matrix with the seeds row 0 ↦ 1/10, column 1 ↦ 2 and `init = 3/10`
+(the call of the repository's `test_range`). -/
+example : (fit .dirichlet 2 3 4 (fun i j => if (i, j) ∈ [(0,0),(0,1),(1,1),(1,2)] then 1 else 0)
+      { valuesRow := .dict [(0, 1/10)], valuesCol := .dict [(1, 2)], init := some (3/10) } 2 0).toOption
+    = some ⟨[1/10, 23/20], some [1/10, 23/20], some [1/10, 2, 23/20]⟩ := by decide +kernel
 
 end SkNet.C14
